@@ -68,7 +68,11 @@ void prop(DP &dp, const ref::Bytes &sched, Ctx &ctx) {
 			if (m.type != exp.type) ctx.fail("TYPE: " + c.text() + " produced type " + std::to_string(m.type) + ", expected " + std::to_string(exp.type));
 			if (defined && m.data != exp.data)
 				ctx.fail("ENCODING: " + c.text() + " produced data " + hex(m.data) + ", specified encoding is " + hex(exp.data));
-			ctx.count(in_range ? "accepted-in-range" : "accepted-out-of-range");
+			// "either rejects parameters outside the ranges its message allows, submitting nothing, or ...": the reference
+			// ranges are the documented ones (include/lowlevel/*.h); where a header is silent, the set the pinned library
+			// accepts. A call outside them must submit nothing.
+			if (!in_range) ctx.fail("ACCEPTED-OUT-OF-RANGE: " + c.text() + " has an argument outside the range its message allows but " + ref::show(m) + " was submitted");
+			ctx.count("accepted-in-range");
 		}
 		s.stop();
 		std::string an = lifecycle_anomalies(true);
